@@ -2,7 +2,7 @@
 bit-identical untouched wells (LOCAL), on every transfer of generated histories incl. nested ones."""
 from __future__ import annotations
 
-from .common import shard, run_cases, BASE_ASSUMPTIONS
+from .common import shard, run_cases, BASE_ASSUMPTIONS, repo_suite, repo_suite_job
 
 ID = 'C01'
 LEVEL = 'exploration'
@@ -24,6 +24,13 @@ def required_buckets(tier):
 
 
 def plan(tier, seed):
+    jobs = _plan(tier, seed)
+    if tier != 'quick' or False:
+        jobs = jobs + repo_suite_job()
+    return jobs
+
+
+def _plan(tier, seed):
     n = 320 if tier == 'quick' else 6000
     jobs = shard('history', n, 16 if tier == 'quick' else 48, big=(tier != 'quick'))
     jobs += shard('witness', 1, 1)
@@ -31,6 +38,8 @@ def plan(tier, seed):
 
 
 def run_job(job):
+    if job['kind'] == 'repo_suite':
+        return run_cases(job, repo_suite)
     if job['kind'] == 'witness':
         return run_cases(job, witness)
     return run_cases(job, history)
